@@ -73,6 +73,14 @@ def run(ctx):
             o = {"code": b1, "bcs": i % 2 == 0, "ccs": True, "level": 0, "conc": conc, "legacy": False, "handler": False}
             wcases.append({"id": len(wcases) + 1, "input": {"family": "text", "len": pre + 3 * B + 5, "seed": i}, "opts": o, "calls": calls, "hist": -1,
                            "reconf": True})
+    # legacy frames, sequential and concurrent (Close returns only when everything has reached the sink)
+    for i, calls in enumerate([[{"op": "write", "n": 300000}, {"op": "close"}],
+                               [{"op": "write", "n": 100}, {"op": "flush"}, {"op": "write", "n": 5000}, {"op": "close"}, {"op": "reset"}, {"op": "write", "n": 70000}, {"op": "close"}],
+                               [{"op": "readfrom", "n": 0}, {"op": "close"}, {"op": "close"}]]):
+        for conc in (1, 4, 2):
+            total = sum(c_.get("n", 0) for c_ in calls) or 200000
+            wcases.append({"id": len(wcases) + 1, "input": {"family": "text", "len": total, "seed": 500 + i}, "calls": calls, "hist": -1,
+                           "opts": {"code": 7, "bcs": False, "ccs": False, "level": 0, "conc": conc, "legacy": True, "handler": False}})
     # a life that met a (transient) sink failure, abandoned by Reset or closed and Reset: the next life is that of a new Writer
     for i, (k, closed) in enumerate([(k, cl) for k in (1, 2, 3, 5, 7) for cl in (False, True)]):
         for conc in (1, 4):
@@ -195,7 +203,8 @@ def run(ctx):
             if rej2:
                 break
         if not rej2:
-            raise vlib.MachineryFault("reader-sequence rejection not reproducible: %s" % rj["line"][:300])
+            ctx.unreproducible("reader-sequence rejection not reproducible: %s" % rj["line"][:300])
+            continue
         ctx.violation(key, "Reader call sequence is not a behaviour of Reader.tla: %s" % key,
                       {"kind": "c17-reader", "case": {k: v for k, v in c.items() if k != "chunks"}, "frame": fw, "observed": rr[c["id"]],
                        "rejected_event": json.loads(rej2[0]["line"])})
@@ -266,7 +275,7 @@ def reuse_across_frames(ctx, b, d):
     B = 65536
     kinds = [("bcs+ccs", {"code": 4, "bcs": True, "ccs": True, "legacy": False}), ("plain", {"code": 4, "bcs": False, "ccs": False, "legacy": False}),
              ("legacy", {"code": 7, "bcs": False, "ccs": False, "legacy": True}), ("sized-256K", {"code": 5, "bcs": False, "ccs": True, "legacy": False, "size": 3 * B + 5}),
-             ("bcs-1M", {"code": 6, "bcs": True, "ccs": False, "legacy": False})]
+             ("bcs-1M", {"code": 6, "bcs": True, "ccs": False, "legacy": False}), ("plain-4M", {"code": 7, "bcs": False, "ccs": True, "legacy": False})]
     frames = []
     for i, (name, o) in enumerate(kinds):
         n = 3 * B + 5
@@ -281,10 +290,15 @@ def reuse_across_frames(ctx, b, d):
     hdr = FRAME_MAGIC + [0x40, 0x40, (xxh32([0x40, 0x40]) >> 8) & 255]
     lit = [0xF0, 25] + [97 + k % 8 for k in range(40)]
     badblk = [0x14, 120, 10, 0, 0x50] + [ord(ch) for ch in "tail!"]
-    for name, body, valid in (("linked-valid", le32(len(lit)) + lit, True), ("linked-match-before-start", le32(len(badblk)) + badblk, False)):
+    hdr64 = FRAME_MAGIC + [0x60, 0x40, 0x82]
+    big = [((i * 73 + 5) ^ (i >> 4)) & 255 for i in range(100000)]
+    for name, h_, body, valid in (("linked-valid", hdr, le32(len(lit)) + lit, True), ("linked-match-before-start", hdr, le32(len(badblk)) + badblk, False),
+                                  # INVALID: a 64 KiB-block frame holding a stored block of 100 000 bytes (a buffer left over from a
+                                  # frame with larger blocks must not make it acceptable)
+                                  ("stored-block-beyond-the-block-size", hdr64, le32(0x80000000 | len(big)) + big, False)):
         path = os.path.join(d, "reuse-%s.lz4" % name)
-        open(path, "wb").write(bytes(hdr + body + [0, 0, 0, 0]))
-        frames.append({"id": len(frames) + 1, "name": name, "save": path, "valid": valid, "bytes": hdr + body + [0, 0, 0, 0]})
+        open(path, "wb").write(bytes(h_ + body + [0, 0, 0, 0]))
+        frames.append({"id": len(frames) + 1, "name": name, "save": path, "valid": valid, "bytes": h_ + body + [0, 0, 0, 0]})
     # a frame whose content is exactly as long as the first block-size word of the legacy frame says (a byte counter left over
     # from the earlier stream would then look like the legacy "total size" trailer)
     leg = next(f for f in frames if f["name"] == "legacy")
